@@ -28,6 +28,72 @@ EXPLANATION = (
 )
 
 
+def _hedge_reward_rule(ctx, prog, hcls):
+    """prob = f(exp(beta * (g - max g))): one non-finite score makes every probability NaN.  The scores are only ever
+    updated by ``g[i] = decay * g[i] + er / phat[i] / mesh``; each definition of the reward ``er`` that depends on a quantity
+    which may come from a GP prediction must sit under ``np.isfinite(q)`` (or ``q == <constant>``) for that quantity."""
+    from .common import deref_expr
+
+    upd = None
+    for m in hcls.methods.values() if isinstance(hcls.methods, dict) else hcls.methods:
+        for t, v, st, k in iter_stores(m.node):
+            if isinstance(t, ast.Subscript) and self_attr_of(t) == "g" and m.name != "__init__":
+                upd = (m, st, v)
+    if upd is None:
+        ctx.undecided("no update of the hedge scores self.g[...] found")
+        return
+    fn, gstore, gval = upd
+    # predicted quantities: locals with a definition derived from a .predict(...) call
+    predicted = set()
+    changed = True
+    defs = {}
+    for t, v, st, k in iter_stores(fn.node):
+        if isinstance(t, ast.Name):
+            defs.setdefault(t.id, []).append(v)
+        elif isinstance(t, (ast.Tuple, ast.List)):
+            pass
+    for n in ast.walk(fn.node):
+        if isinstance(n, ast.Assign) and isinstance(n.targets[0], (ast.Tuple, ast.List)) and isinstance(n.value, ast.Call) and isinstance(n.value.func, ast.Attribute) and n.value.func.attr == "predict":
+            for e in n.targets[0].elts:
+                if isinstance(e, ast.Name):
+                    predicted.add(e.id)
+    while changed:
+        changed = False
+        for nm, vs in defs.items():
+            if nm in predicted:
+                continue
+            for v in vs:
+                if v is not None and any(isinstance(x, ast.Name) and x.id in predicted for x in ast.walk(v)) and call_name(v) in ("np.sqrt", "np.abs", "float", "np.squeeze"):
+                    predicted.add(nm)
+                    changed = True
+    if not predicted:
+        ctx.undecided("no GP-predicted quantity reaches the hedge update")
+        return
+    # the reward variable(s) in the score update
+    rnames = [x.id for x in ast.walk(gval) if isinstance(x, ast.Name) and x.id in defs and x.id not in predicted and x.id not in fn.params]
+    seen = 0
+    for rn in sorted(set(rnames)):
+        for t, v, st, k in iter_stores(fn.node):
+            if not (isinstance(t, ast.Name) and t.id == rn) or v is None:
+                continue
+            seen += 1
+            full = deref_expr(prog, fn, v)
+            used = sorted({x.id for x in ast.walk(full) if isinstance(x, ast.Name) and x.id in predicted})
+            g = guard_canon(prog, fn, st)
+            missing = []
+            for q in used:
+                okq = any(c == f"np.isfinite({q})" or c.startswith(f"({q} == ") or (c.endswith(f" == {q})") and c.startswith("(")) for c in g)
+                if not okq:
+                    missing.append(q)
+            # tabled: deterministic estimate (sd == 0): f is then an observed value, finite by the target-value checks (C10)
+            if missing and call_name(full) in ("np.maximum", "max") and any(const_num(a) == 0 for a in full.args) and any(c.endswith(" == 0)") or c.startswith("(0 == ") for c in g) and len(missing) == 1:
+                ctx.ok(fn, st, f"tabled: {rn} = max(0, .) on the zero-SD branch uses the observed value ({missing[0]})")
+                continue
+            ctx.check(not missing, fn, st, f"{rn} := {canon(v)[:50]} guarded for {used or 'no predicted quantity'}", f"the reward '{rn}' uses the GP-predicted {missing} without an np.isfinite guard: a non-finite prediction makes the score, and then every hedge probability, NaN", construct=f"reward {rn} unguarded {missing}")
+    if not seen:
+        ctx.undecided("the score update does not use a named reward")
+
+
 def check(ctx):
     prog = ctx.prog
     R = roles_of(prog)
@@ -235,6 +301,10 @@ def check(ctx):
                 rdefs = reaching_assignments(prog, hcall, rv, s) if rv.isidentifier() else []
                 okc = c0 in (f"({rv} < np.cumsum(self.prob))", f"({rv} <= np.cumsum(self.prob))") and any("np.random.rand" in canon(d) for d in rdefs)
     ctx.check(okc, hcall, ch[0] if ch else hcall.node, "strategy chosen by inverse CDF: first index with u < cumsum(prob), u ~ U(0,1)", "the strategy is not drawn by inverse CDF on cumsum(prob) with a uniform draw", construct="hedge choice")
+    # ------------------------------------------------------------------ R7
+    ctx.rule("R7", "every reward added to the hedge scores is finite: GP-predicted quantities are used only under finiteness guards", floor=2)
+    _hedge_reward_rule(ctx, prog, hcall.cls)
+
     from . import meshflow
 
     meshflow.report(ctx, "R6", lambda fn, e, R: e == meshflow.SRCH_E)
